@@ -1,6 +1,7 @@
 #ifndef TULZ_SUBJECT_H
 #define TULZ_SUBJECT_H
 
+#include <atomic>
 #include <forward_list>
 #include <set>
 #include <stdexcept>
@@ -49,11 +50,30 @@ public:
         for (auto &details : m_observers)
             cachedDetails.emplace_front(details.observer.get(), details.subscriptionId);
 
+        // Observers removed while a notification is in progress (by a callback) are kept alive
+        // until the outermost notify() returns: their callback may still be executing.
+        // notify() may run concurrently on the same Subject (ConcurrentSubjectRouter holds only a
+        // read lock): the depth is atomic and nothing else is written unless an observer is removed.
+        struct NotifyScope {
+            explicit NotifyScope(Subject &subject): subject(subject) {
+                ++subject.m_notifyDepth.value;
+            }
+
+            ~NotifyScope() {
+                if (--subject.m_notifyDepth.value == 0 && !subject.m_removedObservers.empty()) {
+                    subject.m_removedObservers.clear();
+                }
+            }
+
+            Subject &subject;
+        } notifyScope {*this};
+
         for (auto [observer, subscriptionId] : cachedDetails) {
             if (isSubscriptionIdValid(subscriptionId)) {
                 (*observer)(args...);
 
-                if (!observer->isValid()) {
+                // the observer may have been unsubscribed by its own callback
+                if (isSubscriptionIdValid(subscriptionId) && !observer->isValid()) {
                     unsubscribeById(subscriptionId);
                 }
             }
@@ -74,9 +94,16 @@ private:
     }
 
     void unsubscribeById(SubscriptionId subscriptionId) {
-        m_observers.remove_if([subscriptionId](const ObserverDetails &details) {
-            return details.subscriptionId == subscriptionId;
-        });
+        for (auto prev = m_observers.before_begin(), it = m_observers.begin(); it != m_observers.end(); prev = it++) {
+            if (it->subscriptionId == subscriptionId) {
+                if (m_notifyDepth.value > 0) {
+                    m_removedObservers.splice_after(m_removedObservers.before_begin(), m_observers, prev);
+                } else {
+                    m_observers.erase_after(prev);
+                }
+                break;
+            }
+        }
 
         m_activeSubscriptions.erase(subscriptionId);
     }
@@ -87,7 +114,18 @@ private:
         SubscriptionId subscriptionId;
     };
 
+    // number of notify() calls in progress; a moved-to Subject starts idle
+    struct NotifyDepth {
+        NotifyDepth() = default;
+        NotifyDepth(NotifyDepth&&) noexcept {}
+        NotifyDepth& operator=(NotifyDepth&&) noexcept { return *this; }
+
+        std::atomic<size_t> value {0};
+    };
+
     std::forward_list<ObserverDetails> m_observers;
+    std::forward_list<ObserverDetails> m_removedObservers;
+    NotifyDepth m_notifyDepth;
     std::set<SubscriptionId> m_activeSubscriptions;
 
     SubscriptionId m_subscriptionCounter {0};
